@@ -2,8 +2,9 @@
 //! core stream  : id \t (pair <P> <Q>) \t (lhs <P built>) (rhs <Q built>) (super <bool>)
 //!                P = required (super) predicate, Q = supplied (sub) predicate, both built through the real constructors;
 //!                the verdict is `Context::is_super_pred_of(P, Q)` (hook `verif_is_super_pred_of`) on a builtin context.
-//! e2e stream   : id \t (e2e <P> <Q>) \t (e2e accept|reject <error kinds>) (hook <bool>)
-//!                the program `g(x: {I: Int | Q}): {I: Int | P} = x` checked by the real front end (HIRBuilder, in-process).
+//! e2e stream   : id \t (e2e <P> <Q>) | (e2elit <P> (eq c)) \t (e2e accept|reject <error kinds>) (hook <bool>)
+//!                the program `g(x: {I: Int | Q}): {I: Int | P} = x` (e2elit: `x: {I: Int | P} = c`) checked by the real
+//!                front end (HIRBuilder, in-process).
 use erg_compiler::context::Context;
 use erg_harness::*;
 #[path = "../predx.rs"]
@@ -40,6 +41,14 @@ pub fn program(p: &PExpr, q: &PExpr) -> Option<String> {
     Some(format!("g(x: {{I: Int | {}}}): {{I: Int | {}}} = x\n", q.to_erg()?, p.to_erg()?))
 }
 
+/// `x: {I: Int | P} = c` — the literal's singleton type against the ascribed refinement
+pub fn program_lit(p: &PExpr, q: &PExpr) -> Option<String> {
+    match q {
+        PExpr::Eq(c) => Some(format!("x: {{I: Int | {}}} = {}\n", p.to_erg()?, c)),
+        _ => None,
+    }
+}
+
 fn front_end(src: &str) -> Result<String, String> {
     let s = src.to_string();
     catch(move || {
@@ -59,8 +68,8 @@ fn front_end(src: &str) -> Result<String, String> {
     .map_err(|m| format!("crash({})", quote(&m)))
 }
 
-fn run_e2e(id: &str, p: &PExpr, q: &PExpr) {
-    let out = match program(p, q) {
+fn run_e2e(id: &str, p: &PExpr, q: &PExpr, lit: bool) {
+    let out = match if lit { program_lit(p, q) } else { program(p, q) } {
         None => "out-of-model(no-surface-syntax)".to_string(),
         Some(src) => {
             let fe = match front_end(&src) {
@@ -74,7 +83,7 @@ fn run_e2e(id: &str, p: &PExpr, q: &PExpr) {
             format!("(e2e {}) (hook {})", fe, hk)
         }
     };
-    println!("{}\t(e2e {} {})\t{}", id, p.to_sexp(), q.to_sexp(), out);
+    println!("{}\t({} {} {})\t{}", id, if lit { "e2elit" } else { "e2e" }, p.to_sexp(), q.to_sexp(), out);
 }
 
 // ------------------------------------------------------------------------------------------------ generators
@@ -145,13 +154,29 @@ const WIDE: [i128; 21] = [
     18446744073709551614, 18446744073709551615,
 ];
 
+fn wide_const(i: usize) -> bool {
+    i % 16 == 5
+}
+
 fn gen_pair(rng: &mut Rng, i: usize, surface_only: bool) -> (PExpr, PExpr) {
     let small: Vec<i128> = (-3..=3).collect();
     let mid: Vec<i128> = (-1..=12).collect();
     let wide_case = i % 8 == 7;
     let consts: &[i128] = if wide_case { &WIDE } else if i % 8 == 3 { &mid } else { &small };
     let g = GenCfg { consts, raw16: if !surface_only && i % 5 == 4 { 3 } else { 0 }, val16: if surface_only { 0 } else { 1 } };
-    match rng.below(8) {
+    match rng.below(9) {
+        8 => {
+            // a required interval/atom against a supplied finite set of points scattered around its constants
+            // (structural_supertype_of evaluates the required predicate at `possible_tps` of the supplied one)
+            let p = if rng.chance(1, 2) { interval(rng, consts) } else { gen(rng, 1, &g) };
+            let n = 1 + rng.below(4);
+            let mut q = PExpr::Eq(*rng.pick(consts));
+            for _ in 0..n {
+                let c = (*rng.pick(consts) + rng.range(-1, 1) as i128).clamp(i32::MIN as i128, u64::MAX as i128);
+                q = PExpr::Or(Box::new(q), Box::new(PExpr::Eq(c)));
+            }
+            (p, q)
+        }
         0 | 1 => {
             let dp = 1 + rng.below(3) as usize;
             let dq = 1 + rng.below(3) as usize;
@@ -233,7 +258,13 @@ fn main() {
             let mut rng2 = Rng::new(a.seed.wrapping_add(0xE2E));
             for i in 0..n_e2e {
                 let (p, q) = gen_pair(&mut rng2, i, true);
-                run_e2e(&format!("e{}", i), &p, &q);
+                if i % 4 == 1 {
+                    // literal ascription: the supplied predicate is the singleton of a constant near the constants of P
+                    let c = if wide_const(i) { *rng2.pick(&WIDE) } else { rng2.range(-4, 13) as i128 };
+                    run_e2e(&format!("e{}", i), &p, &PExpr::Eq(c), true);
+                } else {
+                    run_e2e(&format!("e{}", i), &p, &q, false);
+                }
             }
         }
         "replay" => {
@@ -243,6 +274,8 @@ fn main() {
                     ("pair", b)
                 } else if let Some(b) = t.strip_prefix("(e2e ") {
                     ("e2e", b)
+                } else if let Some(b) = t.strip_prefix("(e2elit ") {
+                    ("e2elit", b)
                 } else {
                     println!("{}\t{}\tbad-input", id, input);
                     continue;
@@ -250,7 +283,7 @@ fn main() {
                 let body = body.strip_suffix(")").unwrap_or(body);
                 match parse_many(body) {
                     Some(v) if v.len() == 2 => {
-                        if kind == "pair" { run_pair(&id, &v[0], &v[1]) } else { run_e2e(&id, &v[0], &v[1]) }
+                        if kind == "pair" { run_pair(&id, &v[0], &v[1]) } else { run_e2e(&id, &v[0], &v[1], kind == "e2elit") }
                     }
                     _ => println!("{}\t{}\tbad-input", id, input),
                 }
